@@ -661,7 +661,8 @@ theorem readN_range_nocache (hdr ihdr : Bytes) (dir : Dir) (s : Sess) (e : Entry
   unfold apiReadN
   have hn0 : ¬ n = 0 := by omega
   simp only [hinv.nocache, List.mapM_nil, pure, Except.pure, bind, Except.bind, List.zip_nil_left, List.all_nil,
-    Bool.not_true, Bool.false_eq_true, if_false, hn0, selectLevel, selectLevel.go, if_true]
+    Bool.not_true, Bool.false_eq_true, if_false, hn0, selectLevel, selectLevel.go, levelData, ↓reduceIte, readNTail,
+    lensSorted]
   generalize hseek : apiSeek (mainRegion dir s) s.d sb eb = r at hspec
   cases hspec with
   | rangeError c hw => right; exact ⟨hw, c, rfl⟩
